@@ -108,6 +108,24 @@ func items(tier string) []item {
 		add(dc, mk("C/shutdown-cancelled@3", cb, "instant", "shutdown-cancelled", 3, s1))
 		add(dc, mk("C/shutdown+cancel@2", cb, "sleep10", "shutdown+cancel", 2, s1))
 	}
+	// M: many connections one after the other (state that accumulates from connection to connection: the counter, the
+	// connection set, whatever a change may cache): 8 clients staggered in virtual time, each settles the system before it
+	// dials so that the accept callback's number is exact; "leave" = everybody disconnects, "stay" = odd clients stay
+	for _, cb := range []int{15, srvx.CbAccept, 0} {
+		for _, variant := range []string{"leave", "stay"} {
+			var scripts [][]string
+			ops := 0
+			for i := 0; i < 8; i++ {
+				sc := []string{fmt.Sprintf("sleep:%d", 40*(i+1)), "quiesce", "dial", "send", "recv"}
+				if variant == "leave" || i%2 == 0 {
+					sc = append(sc, "close")
+				}
+				ops += len(sc)
+				scripts = append(scripts, sc)
+			}
+			add(1, mk("M/eight-in-a-row-"+variant, cb, "instant", "shutdown", ops, scripts...))
+		}
+	}
 	// H: Shutdown called twice / from two goroutines; a client that tries to connect after the shutdown
 	for _, cb := range []int{15, 0} {
 		add(2, mk("H/shutdown-twice", cb, "sleep10", "shutdown-twice", 2, s1))
